@@ -6,11 +6,15 @@ package checks
 // sorts last, so every check is registered when its init runs.
 func init() {
 	extra := map[string]map[string]int{
+		"C02": {"first_tx_rolled_back": 20},
+		"C03": {"two_writer_rounds_released_by_close": 2},
+		"C05": {"points_recreate-first-tx": 5},
+		"C08": {"loss_by_unanswered_renewal": 1},
 		"C11": {"range_calls_refused": 50},
 		"C13": {"late_forward_to_former_primary_refused": 4},
 		"C14": {"recreated_with_other_page_size": 2, "fresh_idle_primary_adopted_existing_service": 1},
 		"C16": {"fault_refused_then_restart_old": 10},
-		"C17": {"C_page0_frames": 30},
+		"C17": {"C_page0_frames": 30, "A_first_transaction": 100},
 	}
 	for id, add := range extra {
 		chk := Registry[id]
